@@ -24,6 +24,8 @@ def oracle_sync(ent):
     for k in res["files"]:
         if str(k).startswith("ODD:"):
             return "interleaved file %s holds an odd number of records" % k[4:]
+        if str(k).startswith("UNPARSABLE:"):
+            return "output file %s of a run that ended with status 0 is not a sequence of records" % k[11:]
     seen = {}
     for key, prs in res["files"].items():
         if key == "_lens":
@@ -156,12 +158,27 @@ def oracle_decision(ent, d):
 
 def oracle_pair_adapters(ent):
     pcfg, pairs, res = ent["cfg"], ent["pairs"], ent["impl"]
-    if not pcfg.pair_adapters or pcfg.base.action not in ("trim",):
+    if not pcfg.pair_adapters:
         return None
     b = pcfg.base
     if b.cuts or pcfg.cuts2 or b.qcut or pcfg.qcut2 or b.nextseq is not None or b.length is not None or pcfg.length2 is not None or b.trim_n or b.poly_a:
         return None
     inp = {i: pr for i, pr in enumerate(pairs)}
+    if b.times == 1 and not b.revcomp:
+        # whatever the action: a pair for which no rank matches both mates (each adapter's own answer on the input mate) is not changed
+        o1, o2 = ent.get("_objs") or P.adapter_objects2(pcfg)
+        ent["_objs"] = (o1, o2)
+        for key, prs in res["files"].items():
+            if key == "_lens":
+                continue
+            for (n1, s1, q1), (n2, s2, q2) in prs:
+                i = read_index(n1)
+                in1, in2 = inp[i][0][1], inp[i][1][1]
+                if (s1 != in1 or s2 != in2) and not any(x1.match_to(in1) is not None and x2.match_to(in2) is not None for x1, x2 in zip(o1, o2)):
+                    return "pair %r: no adapter rank matches both mates, yet %s changed under --pair-adapters (action %s)" % (
+                        n1, "R1" if s1 != in1 else "R2", b.action)
+    if b.action not in ("trim",):
+        return None
     for key, prs in res["files"].items():
         if key == "_lens":
             continue
@@ -208,7 +225,7 @@ def oracle_slices(ent, d):
     b = pcfg.base
     inp = {i: pr for i, pr in enumerate(pairs)}
     for key, prs in res["files"].items():
-        if key == "_lens" or str(key).startswith("ODD"):
+        if key == "_lens" or str(key).startswith(("ODD", "UNPARSABLE")):
             continue
         for pr in prs:
             if pr[0] == "LENGTH MISMATCH":
@@ -403,6 +420,44 @@ def oracle_stats_cover_trimming(ent):
     return None
 
 
+def oracle_untrimmed_unit(ent):
+    """the untrimmed filters on pairs when both sides have adapters, the mode is 'any' and nothing but the adapters shortens the reads
+    (action trim; --revcomp allowed): a pair goes to the untrimmed route iff at least one mate was left untrimmed -- so no pair with two
+    shortened mates may sit in the untrimmed files, and every pair in the main output has two shortened mates"""
+    pcfg, pairs, res = ent["cfg"], ent["pairs"], ent["impl"]
+    b = pcfg.base
+    if b.action != "trim" or not b.adapters or not pcfg.adapters2 or pcfg.pair_adapters or pcfg.pair_filter not in (None, "any"):
+        return None
+    if not (b.untrimmed_output or b.discard_untrimmed) or b.demux or pcfg.combinatorial or res.get("exit") != 0:
+        return None
+    if b.cuts or pcfg.cuts2 or b.qcut not in (None, "0") or pcfg.qcut2 not in (None, "0") or b.nextseq is not None or b.length is not None \
+            or pcfg.length2 is not None or b.trim_n or b.poly_a:
+        return None
+    inp = {i: pr for i, pr in enumerate(pairs)}
+
+    def shortened(pr):
+        i = read_index(pr[0][0])
+        if i is None or i not in inp:
+            return None
+        srcs = [inp[i][0][1], inp[i][1][1]]
+        return [not any(m[1].upper() in (x.upper(), revcomp(x).upper()) for x in srcs) for m in pr]
+
+    for key, prs in res["files"].items():
+        if key not in (0, 3) or not isinstance(prs, list):
+            continue
+        for pr in prs:
+            if not (isinstance(pr, tuple) and len(pr) == 2 and isinstance(pr[0], tuple)):
+                continue
+            sh = shortened(pr)
+            if sh is None:
+                return None
+            if key == 3 and all(sh):
+                return "pair %r sits in the untrimmed output although both mates were trimmed" % pr[0][0]
+            if key == 0 and not all(sh):
+                return "pair %r is in the main output although a mate was left untrimmed and the untrimmed pairs are redirected or discarded" % pr[0][0]
+    return None
+
+
 def reduced_pcfg(pcfg, upto):
     """the paired option set cut down to the read-modifying steps up to [upto] ('cut', 'qual', 'adapters', 'polya'), with every
     filter, redirect, renaming and later step removed: what reaches / leaves one step can then be read off the outputs"""
@@ -586,7 +641,7 @@ def oracle_pdemux(ent, d):
 PAIRED_ORACLES = {
     "C03": lambda ent, d: oracle_slices(ent, d),
     "C04": lambda ent, d: oracle_sync(ent) or oracle_step_counts(ent, d),
-    "C05": lambda ent, d: oracle_sync(ent) or oracle_pair_adapters(ent) or oracle_decision(ent, d),
+    "C05": lambda ent, d: oracle_sync(ent) or oracle_pair_adapters(ent) or oracle_decision(ent, d) or oracle_untrimmed_unit(ent),
     "C09": lambda ent, d: oracle_sides(ent, d) or oracle_c09_sides(ent),
     "C10": lambda ent, d: oracle_sides(ent, d) or oracle_late_shorten(ent, d),
     "C11": lambda ent, d: oracle_decision(ent, d),
@@ -598,7 +653,7 @@ PAIRED_FOCUS = {
     "C03": ("action", "adapters", "revcomp", "cut", "qual", "length", "times", "pairactions:0.2"),
     "C04": ("filters", "demux", "combinatorial", "adapters", "qual", "nextseq", "sidefiles:0.3"),
     "C09": ("adapters", "adapters2:0.7", "times", "action"),
-    "C05": FOCUS,
+    "C05": tuple(x for x in FOCUS if x != "pair_adapters") + ("pair_adapters:0.35",),
     "C10": ("cut", "qual", "length", "adapters", "trimn", "names", "zerocap", "nextseq", "stageorder:0.15"),
     "C11": ("filters", "pairfilter", "adapters", "onesided:0.3"),
     "C15": ("demux", "combinatorial", "adapters", "times"),
@@ -607,7 +662,7 @@ PAIRED_FOCUS = {
 }
 
 
-def adjust(pid, rng, pcfg):
+def adjust(pid, rng, pcfg, pairs=None):
     b = pcfg.base
     if pid == "C16" and (b.adapters or pcfg.adapters2) and not pcfg.pair_adapters:
         b.revcomp = True
@@ -617,6 +672,52 @@ def adjust(pid, rng, pcfg):
         # nothing but the adapters shortens the reads, action trim, --revcomp: every shortened mate then stands for an applied match
         b.revcomp, b.action = True, "trim"
         b.cuts, pcfg.cuts2, b.qcut, pcfg.qcut2, b.nextseq, b.length, pcfg.length2, b.trim_n, b.poly_a = (), (), None, None, None, None, None, False, False
+    if pid == "C05" and b.adapters and pcfg.adapters2 and not pcfg.pair_adapters and not pcfg.combinatorial and rng.random() < 0.2:
+        # both sides have adapters, nothing else shortens the reads, untrimmed pairs are redirected or discarded (mode 'any'), with --revcomp
+        b.revcomp, b.action, b.demux = rng.random() < 0.7, "trim", False
+        b.cuts, pcfg.cuts2, b.qcut, pcfg.qcut2, b.nextseq, b.length, pcfg.length2, b.trim_n, b.poly_a = (), (), None, None, None, None, None, False, False
+        pcfg.pair_filter = rng.choice([None, "any"])
+        b.discard_trimmed = False
+        if rng.random() < 0.5:
+            b.untrimmed_output, b.discard_untrimmed = True, False
+        else:
+            b.untrimmed_output, b.discard_untrimmed = False, True
+    elif pid == "C05" and (b.adapters or pcfg.adapters2) and not pcfg.pair_adapters and not pcfg.combinatorial and rng.random() < 0.25:
+        # --discard-trimmed with adapters on one side only and an explicit pair-filter mode: the mode still decides
+        # ('both' can then never discard; 'first' cannot when only R2 has adapters)
+        mode = rng.choice(["both", "both", "first", "any"])
+        if mode == "first" and pcfg.adapters2 and rng.random() < 0.8:
+            b.adapters = ()
+        elif b.adapters and (not pcfg.adapters2 or rng.random() < 0.5):
+            pcfg.adapters2 = ()
+        else:
+            b.adapters = ()
+        if b.adapters or pcfg.adapters2:
+            b.revcomp, b.poly_a, b.demux = False, False, False
+            b.discard_trimmed, b.discard_untrimmed, b.untrimmed_output = True, False, False
+            pcfg.pair_filter = mode
+    elif pid == "C05" and (b.adapters or pcfg.adapters2) and not pcfg.pair_adapters and not pcfg.combinatorial and rng.random() < 0.15:
+        # untrimmed filters with adapters on one side only and mode 'any' (given or by default): 'both' is forced, whichever side has the adapters
+        if b.adapters and (not pcfg.adapters2 or rng.random() < 0.4):
+            pcfg.adapters2 = ()
+        else:
+            b.adapters = ()
+        b.revcomp, b.poly_a, b.demux, b.discard_trimmed = False, False, False, False
+        pcfg.pair_filter = rng.choice([None, "any"])
+        if rng.random() < 0.5:
+            b.untrimmed_output, b.discard_untrimmed = True, False
+        else:
+            b.untrimmed_output, b.discard_untrimmed = False, True
+    if (pid == "C05" and pcfg.pair_adapters and b.times == 1 and not b.revcomp and b.action == "trim" and rng.random() < 0.5
+            and not (b.cuts or pcfg.cuts2 or b.qcut or pcfg.qcut2 or b.nextseq is not None or b.length is not None or pcfg.length2 is not None or b.trim_n or b.poly_a)):
+        # only the adapter pairs touch the reads: every action leaves a pair alone when no rank matches both mates
+        b.action = rng.choice(S.ACTIONS + ["lowercase"])
+        if b.action == "lowercase" and pairs is not None:
+            # soft-masked input: a pair that is left alone keeps its lower-case letters
+            for i, ((n1, s1, q1), (n2, s2, q2)) in enumerate(pairs):
+                if rng.random() < 0.6:
+                    k1, k2 = rng.randint(0, len(s1)), rng.randint(0, len(s2))
+                    pairs[i] = ((n1, s1[:k1].lower() + s1[k1:], q1), (n2, s2[:k2].lower() + s2[k2:], q2))
     if pid == "C15" and b.adapters and not b.discard_trimmed and not pcfg.combinatorial:
         b.demux = True
         b.demux_twice = rng.random() < 0.3
@@ -633,7 +734,7 @@ def paired_part(ctx, pid, n, dist):
             cases.append((P.PCfg.from_json(e["cfg"]), [tuple(tuple(m) for m in pr) for pr in e["pairs"]]))
     for _ in range(n):
         pcfg, pairs = P.rand_pcase(rng, PAIRED_FOCUS[pid])
-        cases.append((adjust(pid, rng, pcfg), pairs))
+        cases.append((adjust(pid, rng, pcfg, pairs), pairs))
     results = P.correspond(ctx, cases, "ppipeline(model) vs cutadapt.cli.main [paired]")
     shown = 0
     with S.Scratch() as d:
